@@ -61,6 +61,8 @@ pub trait ValT: Clone + PartialEq + Send + Sync + 'static + serde::Serialize + s
     const NAME: &'static str;
     /// false for zero-sized values, which cannot store a payload
     const STORES: bool = true;
+    /// the payload NAN_VAL compares unequal to itself
+    const HAS_NAN: bool = false;
     const HAS_SERIAL: bool;
     fn make(v: u32) -> Self;
     fn val(&self) -> u32;
@@ -171,13 +173,16 @@ impl Drop for Val8 {
     }
 }
 pub const VAL_ID: u32 = u32::MAX - 1;
+/// A payload that compares unequal to itself (like a NaN): `==` on collections must not assume reflexive values.
+pub const NAN_VAL: u32 = 0x000F_FFF7;
 impl PartialEq for Val8 {
     fn eq(&self, o: &Val8) -> bool {
-        self.val == o.val
+        self.val == o.val && self.val != NAN_VAL
     }
 }
 impl ValT for Val8 {
     const NAME: &'static str = "Val8";
+    const HAS_NAN: bool = true;
     const HAS_SERIAL: bool = true;
     fn make(v: u32) -> Val8 {
         let serial = sim().new_serial(VAL_ID);
@@ -220,11 +225,12 @@ impl Drop for Big200 {
 }
 impl PartialEq for Big200 {
     fn eq(&self, o: &Big200) -> bool {
-        self.val == o.val
+        self.val == o.val && self.val != NAN_VAL
     }
 }
 impl ValT for Big200 {
     const NAME: &'static str = "Big200";
+    const HAS_NAN: bool = true;
     const HAS_SERIAL: bool = true;
     fn make(v: u32) -> Big200 {
         let serial = sim().new_serial(VAL_ID);
@@ -268,11 +274,12 @@ impl Drop for Align64 {
 }
 impl PartialEq for Align64 {
     fn eq(&self, o: &Align64) -> bool {
-        self.val == o.val
+        self.val == o.val && self.val != NAN_VAL
     }
 }
 impl ValT for Align64 {
     const NAME: &'static str = "Align64";
+    const HAS_NAN: bool = true;
     const HAS_SERIAL: bool = true;
     fn make(v: u32) -> Align64 {
         let serial = sim().new_serial(VAL_ID);
